@@ -601,6 +601,129 @@ def gen_dt_order(rng, tier, add, pools):
 
 
 # ------------------------------------------------------------------------------------------------------------
+# float/double lexical space, special values; lists of unions / unions of lists
+# ------------------------------------------------------------------------------------------------------------
+FLOAT_NEAR = ["", ".", "-.", "+.", "-", "+", "e", "E", "1e", "e1", "1e+", "1e-", "1e1.5", "1.5e1", ".e1", "1-1", "1+1", "1e1e1", "0x1", "+.e",
+              "..", "-.0", "+.0", ".0", "0.", "-0", "+0", "0", "00", "-00.00", "+.00", "0.0.", "+INF", "INF", "-INF", "NaN", "-NaN", "inf", "nan",
+              "INFINITY", "Infinity", "1.", ".5E-3", "--1", "1 e1", "1e 1", "1E5", "1e05", "1e+05", "-1.5E-10", "1e400", "1e-400", "-1e400",
+              "4.9e-324", "1.7976931348623157e308", "3.4028235e38", "1e39", "１e1", "1ｅ1", "1,5", "1f", "1d", "1e5f", "-e5", "+e5", "1e5.", "1.e5",
+              ".e", "-.e1", "0e0", "-0e0", "0.e", "1E+", "1E-5E", " 1", "1 ", " NaN ", "N aN", "IN F"]
+
+
+def float_literal(rng):
+    m = dec_literal(rng, 4, 4)
+    r = rng.random()
+    if r < 0.5:
+        return m
+    return m + rng.choice("eE") + rng.choice(["", "+", "-"]) + "".join(rng.choice("0123456789") for _ in range(rng.randrange(1, 3)))
+
+
+def gen_float(rng, tier, add, pools):
+    thorough = tier == "thorough"
+    lits = list(FLOAT_NEAR) + [float_literal(rng) for _ in range(2000 if thorough else 300)]
+    for _ in range(2000 if thorough else 300):
+        l = float_literal(rng)
+        p = rng.randrange(len(l) + 1)
+        l = l[:p] + rng.choice(list(".+-eE 0") + ["İ", "x", "N", "F"]) + l[p + rng.randrange(2):]
+        lits.append(l)
+    lits += [with_ws(rng, l) for l in rng.sample(lits, 60)]
+    for l in lits:
+        h = hx(l)
+        t = rng.choice(["double", "double", "float"])
+        add("flt-xsv", "xsv %s %s" % (t, h))
+        add("flt-pe", "pe %s %s" % (t, h))
+        add("flt-pa", "pa %s %s" % (t, h))
+    pools["double-agree"] = []
+    pool = ["NaN", "INF", "-INF", "0", "-0", "1", "1.0", "-1", "2.5", "10", "-2.5", " NaN", "+0.0"]
+    for a in pool:
+        for b in pool:
+            add("flt-cmp", "cmp double %s %s" % (hx(a), hx(b)))
+
+
+DATE_NEAR = ["2000-01-01", "2000-02-29", "2001-02-29", "1900-02-29", "2400-02-29", "2000-02-30", "2000-04-31", "2000-04-30", "2000-12-31",
+             "2000-13-01", "2000-00-01", "2000-01-00", "2000-01-32", "0000-01-01", "-0001-01-01", "0001-01-01", "001-01-01", "01000-01-01",
+             "10000-01-01", "2000-01-01Z", "2000-01-01z", "2000-01-01+14:00", "2000-01-01-14:00", "2000-01-01+14:01", "2000-01-01+15:00",
+             "2000-01-01+13:59", "2000-01-01+13:60", "2000-01-01+00:00", "2000-01-01+1:00", "2000-01-01+0100", "2000-01-01ZZ", "2000-01-01 Z",
+             "2000-01-01T00:00:00", "2000-01-01T", "2000-1-01", "2000-01-1", "20000101", "2000/01/01", "+2000-01-01", "--2000-01-01", " 2000-01-01 ",
+             "2000-01-01+", "2000-01-01-", "2000-01-01:", "2000-01-01.5", "2000-01", "2000", "", "-", "2000-01-01-01:00", "2000-01-01+01:00Z",
+             "٢٠٠٠-01-01", "2000-01-0１", "2000-01-01+１4:00", "99999999999-01-01", "4294967297-01-01"]
+
+
+def gen_date(rng, tier, add, pools):
+    thorough = tier == "thorough"
+    lits = list(DATE_NEAR)
+    for _ in range(2500 if thorough else 350):
+        l = dt_literal(rng)
+        d, _, rest = l.partition("T")
+        z = ""
+        for k in range(len(rest)):
+            if rest[k] in "Z+-":
+                z = rest[k:]
+                break
+        l = d + z
+        r = rng.randrange(6)
+        if r == 0:
+            q = [i for i, c in enumerate(l) if c.isdigit()]
+            i = rng.choice(q)
+            l = l[:i] + rng.choice("0123456789") + l[i + 1:]
+        elif r == 1:
+            p = rng.randrange(len(l) + 1)
+            l = l[:p] + rng.choice(list("-+:.TZ 0169") + ["٠"]) + l[p:]
+        elif r == 2:
+            p = rng.randrange(len(l))
+            l = l[:p] + l[p + 1:]
+        elif r == 3:
+            l = with_ws(rng, l)
+        lits.append(l)
+    for l in lits:
+        h = hx(l)
+        add("date-xsv", "xsv date " + h)
+        add("date-pe", "pe date " + h)
+        add("date-pa", "pa date " + h)
+    pools["date-agree"] = [hx(l) for l in lits]
+
+
+def gen_combinators(rng, tier, add, pools):
+    thorough = tier == "thorough"
+    leaves = ["int", "boolean", "double", "unsignedByte", "decimal", "negativeInteger"]
+    toks = {"int": ["1", "-5", "2147483647", "2147483648", "+07"], "boolean": ["true", "false", "1", "0"],
+            "double": ["1e5", "INF", "NaN", "-.5", "1e"], "unsignedByte": ["0", "255", "256"], "decimal": ["1.5", ".5", "."],
+            "negativeInteger": ["-1", "0", "-0"], "junk": ["tru", "x", "1.5.5", "--1", "e", "-"]}
+
+    def rnd_type(depth):
+        r = rng.random()
+        if depth == 0 or r < 0.2:
+            return rng.choice(leaves)
+        if r < 0.6:
+            return "U(%s)" % "+".join(rnd_type(depth - 1) if rng.random() < 0.3 else rng.choice(leaves) for _ in range(rng.randrange(2, 4)))
+        inner = rnd_type(depth - 1)
+        if inner.startswith("L("):            # a list of lists is not allowed
+            inner = "U(%s+%s)" % (rng.choice(leaves), rng.choice(leaves))
+        if inner.startswith("U(") and "L(" in inner:
+            inner = rng.choice(leaves)
+        return "L(%s)" % inner
+    fixed = ["L(U(int+boolean))", "U(L(int)+boolean)", "U(L(int)+L(boolean))", "L(U(double+boolean))", "U(int+L(unsignedByte)+boolean)",
+             "L(int)", "L(U(unsignedByte+negativeInteger))"]
+    types = fixed + [rnd_type(2) for _ in range(200 if thorough else 40)]
+    for t in types:
+        if not (t.startswith("L(") or t.startswith("U(")):
+            continue
+        spec = t
+        if t.startswith("L(") and rng.random() < 0.5:
+            k = rng.randrange(0, 4)
+            spec += "[%s]" % rng.choice(["length=%d" % k, "minLength=%d" % k, "maxLength=%d" % k, "minLength=1;maxLength=%d" % (k + 1)])
+        names = [n for n in toks if n in t] or ["int"]
+        for _ in range(14):
+            n = rng.choice([0, 1, 1, 2, 3, 4])
+            items = [rng.choice(toks[rng.choice(names + (["junk"] if rng.random() < 0.2 else []))]) for _ in range(n)]
+            sep = lambda: rng.choice([" ", " ", "  ", "\t", "\n"])
+            text = rng.choice(["", " "]) + "".join(i + sep() for i in items)
+            if rng.random() < 0.5:
+                text = text.rstrip()
+            add("comb", "%s %s %s" % (rng.choice(["pe", "pe", "pa"]), spec, hx(text)))
+
+
+# ------------------------------------------------------------------------------------------------------------
 def gen_cases(rng, tier):
     cases = []
     seen = set()
@@ -616,6 +739,9 @@ def gen_cases(rng, tier):
     gen_whitespace(rng, tier, add, pools)
     gen_chains(rng, tier, add, pools)
     gen_dt_order(rng, tier, add, pools)
+    gen_float(rng, tier, add, pools)
+    gen_date(rng, tier, add, pools)
+    gen_combinators(rng, tier, add, pools)
     return cases, pools
 
 
@@ -631,6 +757,19 @@ def oracle_request(req):
     """the spec_* request that judges this request (None when there is no oracle)"""
     a = req.split()
     op = a[0]
+    if op in ("pe", "pa") and (a[1].startswith("L(") or a[1].startswith("U(")):
+        return "spec_comb %s %s" % (a[1], a[2])
+    if op in ("xsv", "pe", "pa") and a[1] == "date":
+        u = collapse(unhx(a[2]))
+        k = 1 if u[:1] == [0x2D] else 0
+        n = 0
+        while k + n < len(u) and 0x30 <= u[k + n] <= 0x39:
+            n += 1
+        return None if n > 9 else "spec_date " + a[2]
+    if op in ("xsv", "pe", "pa") and a[1] in ("double", "float"):
+        return "spec_float " + a[2]
+    if op == "cmp" and a[1] in ("double", "float"):
+        return "spec_float_order %s %s" % (a[2], a[3])
     if op == "pc":
         return "spec_ws %s %s" % (a[1], a[2])
     if op == "pb":
@@ -698,6 +837,10 @@ def spec_judgement(req, impl, spec):
             # verdict and the schema-normalised value delivered to the application
             return "ok" if spec == "1 " + impl.split()[1] else "violates"
         return "violates"
+    if op == "cmp" and a[1] in ("double", "float"):
+        if spec in ("notlex", "none"):
+            return None
+        return "ok" if impl == spec else "violates"
     if op == "cmp" and a[1] == "dateTime":
         if spec == "notlex":
             return None
@@ -737,6 +880,12 @@ def attribute(req, mode):
             if u == [0x2E]:
                 return "F10"        # the literal is an optional sign followed by a lone '.'
     base = type_base(a[1]) if len(a) > 1 else ""
+    if a[0] == "cmp" and base in ("double", "float"):
+        return "F34"                # one operand NaN: -1 * INDETERMINATE = -2 is returned
+    if "double" in base or "float" in base:
+        toks = [t for t in "".join(chr(u) if u not in WS else " " for u in unhx(a[2])).split(" ") if t] if a[0] != "cmp" else []
+        if any(t in ("+.", "-.") for t in toks):
+            return "F33"            # a sign followed by a lone '.' is rewritten to a zero by normalizeZero
     if base == "dateTime" and a[0] in ("cmp", "xsc", "can"):
         def zoned(u):
             return u[-1:] == [0x5A] or (len(u) > 6 and u[-6] in (0x2B, 0x2D) and u[-3] == 0x3A)
